@@ -609,7 +609,7 @@ def _integral(fl, R, rng, budget, seed=0, **kw):
         nt = rng.choice([0, 1, 1, 2, 2, 3, 4, 5])
         an, inn = rng.choice(_SNORMS), [rng.choice(_TNORMS) for _ in range(nt)]
         specs = [_rand_term(rng, lo, hi) + (rng.choice([1.0, 1.0, 0.5]),) for _ in range(nt)]
-        degs = [rng.choice([0.0, 1.0, 0.5, 0.25, rng.random(), rng.random()]) for _ in range(nt)]
+        degs = [rng.choice([0.0, 1.0, 0.5, 0.25, rng.random(), rng.random(), rng.random(), 1e-3, 5e-4, 1e-9]) for _ in range(nt)]          # incl. degrees inside the library's comparison tolerance: positive is positive
         if nt and rng.random() < 0.1:
             degs = [0.0] * nt
 
@@ -680,7 +680,7 @@ def _integral(fl, R, rng, budget, seed=0, **kw):
         if nt and case % 2 == 1:
             N = rng.choice([1, 2, 2, 3, 5])
             rb = rng.choice([1, 1, 2, 3, 7, r if r <= 120 else 50])
-            batch = [[rng.choice([0.0, 1.0, 0.5, rng.random(), rng.random()]) for _ in range(N)] for _ in range(nt)]
+            batch = [[rng.choice([0.0, 1.0, 0.5, rng.random(), rng.random(), rng.random(), 5e-4, 1e-9]) for _ in range(N)] for _ in range(nt)]
             if rng.random() < 0.3:
                 i0 = rng.randrange(N)
                 for b in batch:
